@@ -51,7 +51,9 @@ void ScopedVector<T>::popScope() {
 template<typename T>
 template<typename TFun>
 void ScopedVector<T>::popScope(TFun callback) {
-    assert(not limits.empty());
+    // A scope that was never pushed (the caller's push was skipped, e.g. :global-declarations was on at that time):
+    // there is nothing to pop
+    if (limits.empty()) { return; }
     auto lastLimit = limits.back();
     limits.pop_back();
     assert(elements.size() >= lastLimit);
